@@ -52,6 +52,21 @@ def per_config(rep, env, fn, light=False):
 
 
 # ---------------------------------------------------------------- properties
+def only(rep, fn, keep):
+    """run fn into a scratch report and keep the obligations whose rule satisfies `keep`
+    (undecided ones are always kept: fail closed)."""
+    from .report import Report
+    sc = Report(rep.prop)
+    fn(sc)
+    for o in sc.obls:
+        if o["undecided"] or keep(o):
+            rep.obls.append(o)
+
+
+def pre(*prefixes):
+    return lambda o: any(o["rule"].startswith(p) for p in prefixes)
+
+
 def c01(rep, env):
     def f(fb):
         BM.check_roundtrip(rep, fb)
@@ -84,8 +99,9 @@ def c04(rep, env):
     def f(fb):
         SM.check_ctr_layout(rep, fb)
         SM.check_ctr_backend(rep, fb)
-        SM.check_ctr_core(rep, fb)
+        only(rep, lambda r: SM.check_ctr_core(r, fb), pre("ctr.core"))
         MI.check_plumbing(rep, fb, crates={"ctr"})
+        MI.check_enc_only(rep, fb, crates={"ctr"})
     per_config(rep, env, f)
 
 
@@ -98,7 +114,7 @@ def c05(rep, env):
 
 def c06(rep, env):
     def f(fb):
-        SM.check_belt(rep, fb, parts=("def", "par", "export"))
+        only(rep, lambda r: SM.check_belt(r, fb, parts=("def", "par")), pre("belt.", "par."))
         MI.check_plumbing(rep, fb, crates={"belt_ctr"})
         MI.check_enc_only(rep, fb, crates={"belt_ctr"})
     per_config(rep, env, f)
@@ -107,8 +123,8 @@ def c06(rep, env):
 def c07(rep, env):
     def f(fb):
         BM.check_par(rep, fb)
-        SM.check_ctr_backend(rep, fb)
-        SM.check_belt(rep, fb, parts=("par",))
+        only(rep, lambda r: SM.check_ctr_backend(r, fb), pre("par."))
+        only(rep, lambda r: SM.check_belt(r, fb, parts=("par",)), pre("par."))
         CM.check_helpers(rep, fb)
         MI.check_plumbing(rep, fb)
     per_config(rep, env, f)
@@ -118,9 +134,9 @@ def c08(rep, env):
     def f(fb):
         BC.check_definition(rep, fb)
         BC.check_chunking(rep, fb)
-        BM.check_definition(rep, fb, crates={"ofb", "cfb_mode", "cfb8"})
-        SM.check_ctr_backend(rep, fb)
-        SM.check_belt(rep, fb, parts=("def", "par"))
+        BM.check_definition(rep, fb, crates={"ofb"})
+        only(rep, lambda r: SM.check_ctr_backend(r, fb), pre("ctr.ks.advance", "ctr.ks.data-independent", "ctr.ks.block"))
+        only(rep, lambda r: SM.check_belt(r, fb, parts=("def",)), pre("belt.ks."))
         MI.check_stream_involution(rep, fb)
         MI.check_aliases(rep, fb)
         BM.check_dependence(rep, fb, crates={"cfb_mode", "cfb8"})
@@ -130,29 +146,31 @@ def c08(rep, env):
 def c09(rep, env):
     def f(fb):
         BM.check_export(rep, fb)
-        BM.check_roundtrip(rep, fb)
-        SM.check_ctr_layout(rep, fb)
-        SM.check_ctr_core(rep, fb)
-        SM.check_belt(rep, fb, parts=("export",))
+        only(rep, lambda r: BM.check_roundtrip(r, fb), pre("inv.step.state"))
+        only(rep, lambda r: SM.check_ctr_layout(r, fb), pre("ctr.resume", "ctr.from-nonce", "ctr.layout"))
+        only(rep, lambda r: SM.check_ctr_core(r, fb), pre("ctr.core"))
+        only(rep, lambda r: SM.check_belt(r, fb, parts=("export",)), pre("ivstate."))
         BC.check_state(rep, fb)
     per_config(rep, env, f)
 
 
 def c10(rep, env):
     def f(fb):
-        SM.check_ctr_remaining(rep, fb)
-        SM.check_ctr_core(rep, fb)
-        SM.check_ctr_layout(rep, fb)
-        SM.check_belt(rep, fb, parts=("pos", "def"))
+        only(rep, lambda r: SM.check_ctr_remaining(r, fb), pre("pos."))
+        only(rep, lambda r: SM.check_ctr_core(r, fb), pre("pos."))
+        only(rep, lambda r: SM.check_ctr_layout(r, fb), pre("ctr.layout", "ctr.next.advance", "ctr.next.nonce-kept"))
+        only(rep, lambda r: SM.check_ctr_backend(r, fb), pre("ctr.ks.advance", "par.closed-form.state"))
+        only(rep, lambda r: SM.check_belt(r, fb, parts=("pos", "def", "par")), pre("pos.", "belt.ks.advance", "belt.ks.block", "par.closed-form.state"))
     per_config(rep, env, f)
 
 
 def c11(rep, env):
     def f(fb):
-        SM.check_ctr_remaining(rep, fb)
-        SM.check_ctr_core(rep, fb)
-        SM.check_ctr_backend(rep, fb)
-        SM.check_belt(rep, fb, parts=("rem", "def", "par"))
+        only(rep, lambda r: SM.check_ctr_remaining(r, fb), pre("rem."))
+        only(rep, lambda r: SM.check_ctr_core(r, fb), pre("rem."))
+        only(rep, lambda r: SM.check_ctr_layout(r, fb), pre("ctr.next.advance"))
+        only(rep, lambda r: SM.check_ctr_backend(r, fb), pre("ctr.ks.advance", "par.closed-form.state"))
+        only(rep, lambda r: SM.check_belt(r, fb, parts=("rem", "def", "par")), pre("rem.", "belt.ks.advance", "par.closed-form.state"))
         MI.check_ofb_unbounded(rep, fb)
         CR.check_wrapper_checks(rep, fb)
     per_config(rep, env, f)
@@ -163,13 +181,13 @@ def c12(rep, env):
         BM.check_inplace(rep, fb)
         CM.check_inplace(rep, fb)
         MI.check_stream_involution(rep, fb)
-        CM.check_helpers(rep, fb)
+        only(rep, lambda r: CM.check_helpers(r, fb), pre("helpers.par-group.inplace"))
     per_config(rep, env, f)
 
 
 def c13(rep, env):
     def f(fb):
-        CM.check_layout(rep, fb)
+        only(rep, lambda r: CM.check_layout(r, fb), lambda o: ".gate." in o["rule"] or o["rule"].endswith("no-panic") or o["rule"].endswith("case-covered"))
         CM.check_b2b(rep, fb)
         MI.check_iv_sizes(rep, fb)
         MI.check_panic_sites(rep, fb)
@@ -178,8 +196,9 @@ def c13(rep, env):
 
 def c14(rep, env):
     def f(fb):
-        CM.check_layout(rep, fb)
-        CM.check_helpers(rep, fb)
+        # whole number of blocks: CS1 = CS2 = plain CBC / raw ECB, CS3 = last two exchanged, one block = plain
+        only(rep, lambda r: CM.check_layout(r, fb), lambda o: o["rule"] == "cts.layout" and o["instance"].endswith("d=0"))
+        only(rep, lambda r: CM.check_helpers(r, fb), pre("helpers.one-block", "helpers.par-group"))
         BC.check_definition(rep, fb)
         BC.check_init(rep, fb)
         MI.check_ofb_one_backend(rep, fb)
@@ -191,8 +210,8 @@ def c14(rep, env):
 def c15(rep, env):
     def f(fb):
         BM.check_dependence(rep, fb)
-        SM.check_ctr_backend(rep, fb)
-        SM.check_belt(rep, fb, parts=("def",))
+        only(rep, lambda r: SM.check_ctr_backend(r, fb), pre("ctr.ks.data-independent", "ctr.ks.block"))
+        only(rep, lambda r: SM.check_belt(r, fb, parts=("def",)), pre("belt.ks.data-independent", "belt.ks.block"))
     per_config(rep, env, f)
 
 
@@ -226,13 +245,13 @@ REGISTRY = {
     "C05": {"run": c05, "level": "proof", "floors": {"cts.layout": 72, "cts.gate.exact": 12, "helpers.one-block": 4}},
     "C06": {"run": c06, "level": "proof", "floors": {"belt.init": 1, "belt.ks.block": 1, "par.closed-form": 2}},
     "C07": {"run": c07, "level": "proof", "floors": {"par.no-override": 11, "par.closed-form": 18, "helpers.par-group": 7}},
-    "C08": {"run": c08, "level": "proof", "floors": {"buf.def": 12, "buf.chunk": 6, "def.out": 7, "ctr.ks.block": 6, "belt.ks.block": 1, "alias.wrapper": 8}},
+    "C08": {"run": c08, "level": "proof", "floors": {"buf.def": 12, "buf.chunk": 6, "def.out": 3, "ctr.ks.block": 6, "belt.ks.block": 1, "alias.wrapper": 8}},
     "C09": {"run": c09, "level": "proof", "floors": {"ivstate.export-public": 12, "ivstate.resume": 14, "ctr.resume": 6, "buf.state": 4}},
     "C10": {"run": c10, "level": "proof", "floors": {"pos.get": 7, "pos.set": 7, "pos.counter-type": 7, "pos.core": 12}},
     "C11": {"run": c11, "level": "other", "floors": {"rem.exact": 7, "ctr.ks.advance": 6, "belt.ks.advance": 1, "wrapper.check-dominates": 3, "rem.ofb-unbounded": 1}},
     "C12": {"run": c12, "level": "proof", "floors": {"alias.same.out": 86, "alias.no-old-output": 87}},
-    "C13": {"run": c13, "level": "proof", "floors": {"cts.gate.exact": 12, "cts.gate.no-side-effect": 12, "b2b": 3, "ivsize": 21, "panic.site-covered": 40}},
-    "C14": {"run": c14, "level": "proof", "floors": {"cts.layout": 72, "buf.def": 12, "buf.init": 2, "ofb.one-backend": 1, "ofb.same-function": 2, "alias.wrapper": 8, "keyinit.blanket": 21}},
+    "C13": {"run": c13, "level": "proof", "floors": {"cts.no-panic": 72, "cts.gate.exact": 12, "cts.gate.no-side-effect": 12, "b2b": 3, "ivsize": 21, "panic.site-covered": 40}},
+    "C14": {"run": c14, "level": "proof", "floors": {"cts.layout": 36, "buf.def": 12, "buf.init": 2, "ofb.one-backend": 1, "ofb.same-function": 2, "alias.wrapper": 8, "keyinit.blanket": 21}},
     "C15": {"run": c15, "level": "proof", "floors": {"dep.kind": 24, "ctr.ks.data-independent": 6}},
     "C16": {"run": c16, "level": "proof", "floors": {"own.fields-by-value": 62, "own.clone-fieldwise": 58, "own.no-std": 18, "own.no-unsafe": 18, "own.calls-allow-listed": 18}},
     "C17": {"run": c17, "level": "other", "floors": {"leak.debug-opaque": 66, "leak.alias-debug-opaque": 16, "leak.zeroize-field": 24}},
